@@ -217,19 +217,22 @@ fn js_value_to_json_with_visited(
                         ExoticObject::Array { .. } | ExoticObject::Function(_) => {
                             serde_json::Value::Null
                         }
-                        ExoticObject::Map { .. } => serde_json::Value::Null,
-                        ExoticObject::Set { .. } => serde_json::Value::Null,
                         ExoticObject::Date { timestamp } => {
                             // Dates serialize as their ISO string
                             serde_json::Value::String(format_timestamp_iso(*timestamp))
                         }
-                        ExoticObject::RegExp { .. } => {
+                        // Objects without a JSON form of their own and without enumerable
+                        // properties in ECMAScript serialize as `{}` (their contents are
+                        // internal state, `size` etc. are prototype accessors there)
+                        ExoticObject::RegExp { .. }
+                        | ExoticObject::Map { .. }
+                        | ExoticObject::Set { .. }
+                        | ExoticObject::Promise(_)
+                        | ExoticObject::Generator(_)
+                        | ExoticObject::BytecodeGenerator(_)
+                        | ExoticObject::Symbol(_) => {
                             serde_json::Value::Object(serde_json::Map::new())
                         }
-                        ExoticObject::Generator(_) | ExoticObject::BytecodeGenerator(_) => {
-                            serde_json::Value::Null
-                        }
-                        ExoticObject::Promise(_) => serde_json::Value::Null,
                         ExoticObject::Environment(_) => serde_json::Value::Null, // Internal type
                         ExoticObject::Enum(data) => {
                             // Enums serialize with forward and reverse mappings
@@ -305,10 +308,6 @@ fn js_value_to_json_with_visited(
                             // We already validated the JSON when creating the RawJSON object,
                             // so this parse should never fail
                             serde_json::from_str(raw.as_str()).unwrap_or(serde_json::Value::Null)
-                        }
-                        ExoticObject::Symbol(_) => {
-                            // Symbol wrapper objects serialize to undefined (null in JSON)
-                            serde_json::Value::Null
                         }
                         ExoticObject::PendingOrder { .. } => {
                             // PendingOrder markers serialize to null
